@@ -55,10 +55,15 @@ def rule_n1(repo):
         cfg = cfg_of(f.node)
         rebinds = []
         for n in cfg.stmt_nodes(ast.Assign):
-            if any(is_name(t, 'inst') for t in n.ast.targets) and isinstance(n.ast.value, ast.Call):
-                cn = call_name(n.ast.value)
-                if (cn == 'copy' and n.ast.value.args and is_name(n.ast.value.args[0], 'inst')) or cn == 'Inst' or \
-                        (cn in safe_names):
+            if any(is_name(t, 'inst') for t in n.ast.targets):
+                def fresh(v):
+                    if isinstance(v, ast.IfExp):
+                        return fresh(v.body) and fresh(v.orelse)
+                    if not isinstance(v, ast.Call):
+                        return False
+                    cn = call_name(v)
+                    return (cn in ('copy', 'copy.copy') and v.args and is_name(v.args[0], 'inst')) or cn == 'Inst' or cn in safe_names
+                if fresh(n.ast.value):
                     rebinds.append(n)
         nested_mutating = {name for name, g in f.nested.items() if _mutates_inst(g.node)}
         unsafe = []
